@@ -195,6 +195,9 @@ def check(ctx):
     fk = copied_for("Fork")
     ctx.check(bool(fk), R2, it, fk[0][0] if fk else it.node, "a Fork shares its parent list with the enclosing hierarchy: nodes inside the fork become ancestors of nodes after it",
               "Fork branches work on a copy of the parent list")
+    hk = copied_for("Hierarchical")
+    ctx.check(not hk, R2, it, hk[0][0] if hk else it.node, "a plain (non-Fork) Hierarchical also works on a private copy of the parent list: containers and components inside a nested group stop being ancestors of what follows it, "
+              "so every later component is counted with too few instances", "a plain Hierarchical shares the parent list with its siblings")
     app_stmt = appends[0]
     while not isinstance(app_stmt, ast.stmt):
         app_stmt = ipm[id(app_stmt)]
